@@ -119,6 +119,10 @@ func c12Forge(net *vnet.Net, rng *rand.Rand, class string, item ledger.H, adv in
 			s := make([]byte, 64)
 			rng.Read(d)
 			out = append(out, &protobufcompiled.Gossiper{Address: string(serializer.Base58Encode(raw)), Digest: d, Signature: s})
+			// and with the digest that belongs to (this "address", this item), so that the verifier gets as far as the key
+			addr := string(serializer.Base58Encode(raw))
+			dg := sha256.Sum256(append([]byte(addr), item[:]...))
+			out = append(out, &protobufcompiled.Gossiper{Address: addr, Digest: dg[:], Signature: s})
 		}
 		out = append(out, &protobufcompiled.Gossiper{Address: "0OIl not base58", Digest: make([]byte, 32), Signature: make([]byte, 64)})
 	}
